@@ -5,6 +5,7 @@ import PteraModel.Driver.Handlers
 import PteraModel.Driver.Lifecycle
 import PteraModel.Driver.Ctx
 import PteraModel.Driver.Sched
+import PteraModel.Driver.Registry
 open Lean
 
 def dispatch (j : Json) : Json :=
@@ -12,6 +13,7 @@ def dispatch (j : Json) : Json :=
   | "tools" => Ptera.Driver.Tools.handle j
   | "lex" | "ptree" | "parse" | "select0" | "hashvar" => Ptera.Driver.Selector.handle j
   | "handlers" => Ptera.Driver.Handlers.handle j
+  | "registry" => Ptera.Driver.Registry.handle j
   | "sched" => Ptera.Driver.Sched.handle j
   | "sched_run" => Ptera.Driver.Sched.handleRun j
   | "ctx" => Ptera.Driver.Ctx.handle j
